@@ -99,6 +99,13 @@ func registerStandardExt() {
 			panic(err)
 		}
 	}
+	for _, p := range []psatoken.IProfile{ExtLaxIDProfile{}, ExtDefaultingProfile{}} {
+		if _, _, ok := psatoken.VerifRegistryEntry(p.GetName()); !ok {
+			if err := psatoken.RegisterProfile(p); err != nil {
+				panic(err)
+			}
+		}
+	}
 }
 
 // OwnTagClaims is a profile-2 based claims type whose JSON profile member has
@@ -346,8 +353,22 @@ type hdrPSA struct {
 	Profile *string `cbor:"-75000,keyasint,omitempty" json:"psa-profile,omitempty"`
 }
 
-func (hdrEAT) hdr() {}
-func (hdrPSA) hdr() {}
+// both profile keys at one struct level: the first one identifies the profile
+type hdrBoth struct {
+	Profile *eat.Profile `cbor:"265,keyasint" json:"eat-profile"`
+	Legacy  *string      `cbor:"-75000,keyasint,omitempty" json:"psa-profile,omitempty"`
+}
+
+// a field that is merely NAMED Profile (no cbor key) in front of the one that carries the key
+type hdrNamed struct {
+	Profile string       `json:"note,omitempty"`
+	Real    *eat.Profile `cbor:"265,keyasint" json:"eat-profile"`
+}
+
+func (hdrEAT) hdr()   {}
+func (hdrPSA) hdr()   {}
+func (hdrBoth) hdr()  {}
+func (hdrNamed) hdr() {}
 
 type HdrClaims struct {
 	HdrIface
@@ -357,7 +378,8 @@ type HdrClaims struct {
 
 func (c *HdrClaims) GetProfile() (string, error) { return c.name, nil }
 
-// HdrProfile: Style 0 = EAT-style header, 1 = PSA-style header, 2 = no header (no profile field at all).
+// HdrProfile: Style 0 = EAT-style header, 1 = PSA-style header, 2 = no header (no profile field at all), 3 = both
+// profile keys at one level, 4 = a field merely named Profile before the keyed one.
 type HdrProfile struct {
 	Name  string
 	Style int
@@ -376,8 +398,27 @@ func (p HdrProfile) GetClaims() psatoken.IClaims {
 	case 1:
 		n := p.Name
 		c.HdrIface = hdrPSA{Profile: &n}
+	case 3, 4:
+		ep := eat.Profile{}
+		if err := ep.Set(p.Name); err != nil {
+			panic(err)
+		}
+		if p.Style == 3 {
+			c.HdrIface = hdrBoth{Profile: &ep}
+		} else {
+			c.HdrIface = hdrNamed{Real: &ep}
+		}
 	}
 	return c
+}
+
+// ExtP1NoClaimProfile: a profile-1 based profile whose factory leaves the (optional) profile claim unset; the claims
+// report the profile through CanonicalProfile.
+type ExtP1NoClaimProfile struct{ Name string }
+
+func (p ExtP1NoClaimProfile) GetName() string { return p.Name }
+func (p ExtP1NoClaimProfile) GetClaims() psatoken.IClaims {
+	return &ExtP1Claims{P1Claims: psatoken.P1Claims{SwComponents: &psatoken.SwComponents[*psatoken.SwComponent]{}, CanonicalProfile: p.Name}}
 }
 
 // WrapClaims embeds the claims INTERFACE (not a concrete claims type) and adds one claim: the same Go type carries
@@ -389,3 +430,105 @@ type WrapClaims struct {
 
 func (o WrapClaims) MarshalCBOR() ([]byte, error) { return encoding.SerializeStructToCBOR(extEM, &o) }
 func (o WrapClaims) MarshalJSON() ([]byte, error) { return encoding.SerializeStructToJSON(&o) }
+
+// ---- two more derived profiles (C03) ----
+
+// ExtLaxIDClaims: a profile whose instance and implementation identifiers have other lengths than the built-in ones
+// (a 17-byte RAND UEID, a 16-byte implementation id): it overrides the four accessors.
+type ExtLaxIDClaims struct {
+	psatoken.P2Claims
+}
+
+const ExtLaxIDName = "http://example.com/psa/lax-id"
+
+func (o *ExtLaxIDClaims) GetInstID() ([]byte, error) {
+	if o.InstID == nil {
+		return nil, psatoken.ErrMandatoryClaimMissing
+	}
+	b := []byte(*o.InstID)
+	if len(b) != 17 || b[0] != 0x01 {
+		return nil, fmt.Errorf("%w: this profile uses 17-byte RAND UEIDs", psatoken.ErrWrongSyntax)
+	}
+	return b, nil
+}
+func (o *ExtLaxIDClaims) SetInstID(v []byte) error {
+	if len(v) != 17 || v[0] != 0x01 {
+		return fmt.Errorf("%w: this profile uses 17-byte RAND UEIDs", psatoken.ErrWrongSyntax)
+	}
+	u := eat.UEID(append([]byte{}, v...))
+	o.InstID = &u
+	return nil
+}
+func (o *ExtLaxIDClaims) GetImplID() ([]byte, error) {
+	if o.ImplID == nil {
+		return nil, psatoken.ErrMandatoryClaimMissing
+	}
+	if len(*o.ImplID) != 16 {
+		return nil, fmt.Errorf("%w: this profile uses 16-byte implementation ids", psatoken.ErrWrongSyntax)
+	}
+	return *o.ImplID, nil
+}
+func (o *ExtLaxIDClaims) SetImplID(v []byte) error {
+	if len(v) != 16 {
+		return fmt.Errorf("%w: this profile uses 16-byte implementation ids", psatoken.ErrWrongSyntax)
+	}
+	c := append([]byte{}, v...)
+	o.ImplID = &c
+	return nil
+}
+func (o *ExtLaxIDClaims) Validate() error { return psatoken.ValidateClaims(o) }
+func (o ExtLaxIDClaims) MarshalCBOR() ([]byte, error) {
+	return encoding.SerializeStructToCBOR(extEM, &o)
+}
+func (o *ExtLaxIDClaims) UnmarshalCBOR(d []byte) error {
+	return encoding.PopulateStructFromCBOR(extDM, d, o)
+}
+func (o ExtLaxIDClaims) MarshalJSON() ([]byte, error)  { return encoding.SerializeStructToJSON(&o) }
+func (o *ExtLaxIDClaims) UnmarshalJSON(d []byte) error { return encoding.PopulateStructFromJSON(d, o) }
+
+type ExtLaxIDProfile struct{}
+
+func (ExtLaxIDProfile) GetName() string { return ExtLaxIDName }
+func (ExtLaxIDProfile) GetClaims() psatoken.IClaims {
+	ep := eat.Profile{}
+	if err := ep.Set(ExtLaxIDName); err != nil {
+		panic(err)
+	}
+	return &ExtLaxIDClaims{P2Claims: psatoken.P2Claims{Profile: &ep, SwComponents: &psatoken.SwComponents[*psatoken.SwComponent]{}, CanonicalProfile: ExtLaxIDName}}
+}
+
+// ExtDefaultingClaims: a profile whose Validate() fills in a default for an absent verification-service indicator
+// before checking (validation that normalises is a common pattern).
+type ExtDefaultingClaims struct {
+	psatoken.P2Claims
+}
+
+const ExtDefaultingName = "http://example.com/psa/defaulting"
+const ExtDefaultVSI = "https://default-verifier.example"
+
+func (o *ExtDefaultingClaims) Validate() error {
+	if o.VSI == nil {
+		v := ExtDefaultVSI
+		o.VSI = &v
+	}
+	return psatoken.ValidateClaims(o)
+}
+func (o ExtDefaultingClaims) MarshalCBOR() ([]byte, error) {
+	return encoding.SerializeStructToCBOR(extEM, &o)
+}
+func (o *ExtDefaultingClaims) UnmarshalCBOR(d []byte) error {
+	return encoding.PopulateStructFromCBOR(extDM, d, o)
+}
+func (o ExtDefaultingClaims) MarshalJSON() ([]byte, error)  { return encoding.SerializeStructToJSON(&o) }
+func (o *ExtDefaultingClaims) UnmarshalJSON(d []byte) error { return encoding.PopulateStructFromJSON(d, o) }
+
+type ExtDefaultingProfile struct{}
+
+func (ExtDefaultingProfile) GetName() string { return ExtDefaultingName }
+func (ExtDefaultingProfile) GetClaims() psatoken.IClaims {
+	ep := eat.Profile{}
+	if err := ep.Set(ExtDefaultingName); err != nil {
+		panic(err)
+	}
+	return &ExtDefaultingClaims{P2Claims: psatoken.P2Claims{Profile: &ep, SwComponents: &psatoken.SwComponents[*psatoken.SwComponent]{}, CanonicalProfile: ExtDefaultingName}}
+}
